@@ -14,7 +14,7 @@ Record ast := mkA {
   a_prevCatch : bool;      (* previous == stateCatchAll *)
   a_cnt : nat;             (* paramCnt *)
   a_cs : nat;              (* countStatic *)
-  a_klen : nat;            (* i - startParam, while inside a wildcard *)
+  a_klen : nat;            (* i - startParam (incremented on every byte) *)
   a_inParam : bool;
   a_nonNum : bool;
   a_partlen : nat;
@@ -41,7 +41,7 @@ Definition lstep (mp mk : nat) (hostne host : bool) (prevc c : ascii) (next : op
                 | Some n => Ascii.eqb n (ldelim hostne host) || Ascii.eqb n "/"
                 end in
       if negb ok then LStop else
-      LNext host (mkA StDefault false (a_cnt a) 0 (a_klen a) false (host || a_nonNum a)
+      LNext host (mkA StDefault false (a_cnt a) 0 (S (a_klen a)) false (host || a_nonNum a)
                       (a_partlen a) (a_totallen a) (a_last a) (a_hostlast a))
     else if mk <? a_klen a then LStop
     else if Ascii.eqb c (ldelim hostne host) || Ascii.eqb c "/" || Ascii.eqb c "*" || Ascii.eqb c "{" then LStop
@@ -53,7 +53,7 @@ Definition lstep (mp mk : nat) (hostne host : bool) (prevc c : ascii) (next : op
       let ok := match next with None => true | Some n => Ascii.eqb n "/" end in
       if negb ok then LStop else
       if a_prevCatch a && (a_cs a <=? 1) then LStop else
-      LNext host (mkA StDefault true (a_cnt a) 0 (a_klen a) false (a_nonNum a)
+      LNext host (mkA StDefault true (a_cnt a) 0 (S (a_klen a)) false (a_nonNum a)
                       (a_partlen a) (a_totallen a) (a_last a) (a_hostlast a))
     else if mk <? a_klen a then LStop
     else if Ascii.eqb c "/" || Ascii.eqb c "*" || Ascii.eqb c "{" then LStop
@@ -79,25 +79,25 @@ Definition lstep (mp mk : nat) (hostne host : bool) (prevc c : ascii) (next : op
       let fin (a' : ast) := if mp <? a_cnt a then LStop else LNext inhost a' in
       if inhost then
         if is_alpha_us c then
-          fin (mkA StDefault (a_prevCatch a) (a_cnt a) (S (a_cs a)) (a_klen a) (a_inParam a) true
+          fin (mkA StDefault (a_prevCatch a) (a_cnt a) (S (a_cs a)) (S (a_klen a)) (a_inParam a) true
                    (S (a_partlen a)) (a_totallen a) c (a_hostlast a))
         else if is_digit c then
-          fin (mkA StDefault (a_prevCatch a) (a_cnt a) (S (a_cs a)) (a_klen a) (a_inParam a) (a_nonNum a)
+          fin (mkA StDefault (a_prevCatch a) (a_cnt a) (S (a_cs a)) (S (a_klen a)) (a_inParam a) (a_nonNum a)
                    (S (a_partlen a)) (a_totallen a) c (a_hostlast a))
         else if Ascii.eqb c "-" then
           if Ascii.eqb (a_last a) "." then LStop else
-          fin (mkA StDefault (a_prevCatch a) (a_cnt a) (S (a_cs a)) (a_klen a) (a_inParam a) true
+          fin (mkA StDefault (a_prevCatch a) (a_cnt a) (S (a_cs a)) (S (a_klen a)) (a_inParam a) true
                    (S (a_partlen a)) (a_totallen a) c (a_hostlast a))
         else if Ascii.eqb c "." then
           if Ascii.eqb (a_last a) "." && negb (Ascii.eqb prevc "}") then LStop else
           if Ascii.eqb (a_last a) "-" then LStop else
           if max_label <? a_partlen a then LStop else
-          fin (mkA StDefault (a_prevCatch a) (a_cnt a) (S (a_cs a)) (a_klen a) (a_inParam a) (a_nonNum a)
+          fin (mkA StDefault (a_prevCatch a) (a_cnt a) (S (a_cs a)) (S (a_klen a)) (a_inParam a) (a_nonNum a)
                    0 (a_totallen a + (a_partlen a + 1)) c (a_hostlast a))
         else LStop
       else
         (* past the hostname, or the first '/' itself: record url[endHost-1] *)
-        fin (mkA StDefault (a_prevCatch a) (a_cnt a) (S (a_cs a)) (a_klen a) (a_inParam a) (a_nonNum a)
+        fin (mkA StDefault (a_prevCatch a) (a_cnt a) (S (a_cs a)) (S (a_klen a)) (a_inParam a) (a_nonNum a)
                  (a_partlen a) (a_totallen a) (a_last a) (if host then prevc else a_hostlast a))
   end.
 
